@@ -26,12 +26,12 @@ class ProxyFixMiddleware:
             scheme: Optional[str] = None
             host: Optional[str] = None
 
-            if (
-                self.mode == "modern"
-                and (value := _get_trusted_value(b"forwarded", headers, self.trusted_hops))
-                is not None
-            ):
-                for part in value.split(";"):
+            if self.mode == "modern":
+                # Only the Forwarded header is used, with too few values
+                # in it nothing else (that the client may have sent, e.g.
+                # X-Forwarded-* headers) is trusted instead.
+                value = _get_trusted_value(b"forwarded", headers, self.trusted_hops)
+                for part in value.split(";") if value is not None else []:
                     if part.startswith("for="):
                         client = part[4:].strip()
                     elif part.startswith("host="):
